@@ -20,7 +20,9 @@
 (***************************************************************************)
 EXTENDS Node
 
-Kinds == {"valid", "badsig", "wrongblock"}
+\* besides a certificate of another block altogether: certificates that differ from the node's block in exactly one of the
+\* fields LIP-0061 puts under the signature (the block id covers the header, so these can only be forged - they must not verify)
+Kinds == {"valid", "badsig", "wrongblock", "wrong-vhash", "wrong-stateroot", "wrong-timestamp"}
 Signable(h) == h >= 1 /\ h <= Tip.h      \* heights for which the node has a block of its own to certify
 
 \* signer / certifier sets: all of them for small validator sets, a family that still brackets every threshold for large ones
